@@ -322,7 +322,8 @@ def _clean_ev(ev):
            'target': str(ev.get('target_sid', '')), 'arg': str(ev.get('arg', '')),
            'what': str(ev.get('method') or ev.get('op') or ev.get('func') or ev.get('kind')),
            'phase': str(ev.get('phase', '')), 'now': ev.get('now', 0), 'n': int(ev.get('n', 0) or 0), 'writes': ev.get('writes', []),
-           'exc_msg': ev.get('exc_msg', ''), 't': str(ev.get('lt', '')), 'k': int(ev.get('lk', 0) or 0), 'fr': bool(ev.get('lfr', True))}
+           'exc_msg': ev.get('exc_msg', ''), 't': str(ev.get('lt', '')), 'k': int(ev.get('lk', 0) or 0), 'fr': bool(ev.get('lfr', True)),
+           'swallowed': list(ev.get('swallowed', []))}
     return out
 
 
